@@ -7,6 +7,7 @@ package app
 // build), and hands the resulting handlers to the harness.
 
 import (
+	"github.com/nuetzliches/hookaido/internal/verifkit/dump"
 	"context"
 	"fmt"
 	"io"
@@ -85,7 +86,11 @@ func VerifBoot(o VerifBootOptions) (*VerifApp, error) {
 	appMetrics := newRuntimeMetrics()
 	state := newRuntimeState(compiled)
 	if o.Now != nil {
+		// the limiters newRuntimeState built carry the real clock's start instant: forget them (by name, so that a
+		// tree that renames the fields still builds) and build them again under the injected clock
 		state.now = o.Now
+		dump.ZeroField(state, "ingressGlobalLimit")
+		dump.ZeroField(state, "ingressRouteLimits")
 		state.configureIngressRateLimits(compiled)
 	}
 	if err := state.loadAuth(compiled); err != nil {
